@@ -793,6 +793,15 @@ def _check_wiring(R, F, CG):
     if st:
         sf = F.inlined(st[0])       # start() may group its steps into private helpers (`validate_startup`, `open_engine`)
         cs = {c.path.split("::")[-1]: c for c in sf.calls() if c.path and not sf.is_cleanup(c.bb)}
+        # a step may sit in a private async helper start() awaits (`serve(engine, config).await`): it happens at the await
+        try:
+            from c16 import _awaited_private
+            for (pc_, hv_) in _awaited_private(F, sf):
+                for c_ in hv_.calls():
+                    if c_.path and not hv_.is_cleanup(c_.bb) and c_.path.split("::")[-1] in ("validate_config", "start_rpc_server"):
+                        cs.setdefault(c_.path.split("::")[-1], pc_)
+        except ImportError:
+            pass
         for n in ("validate_config", "start_rpc_server"):
             R.ob(n in cs, "WIRE", sf.where(), "WIRE|start|%s" % n, "start() no longer calls %s" % n)
         if "validate_config" in cs and "start_rpc_server" in cs:
